@@ -134,7 +134,18 @@ static void set_buf(DmxBuffer *b, const vector<uint8_t> &d) {
   b->Set(d.empty() ? &g_dummy : d.data(), d.size());
 }
 
+// "tv nsec nusec tsec tusec": DmxSource::IsSet / IsActive on raw struct timeval values
+static string handle_tv(const vector<string> &a) {
+  struct timeval n, t;
+  n.tv_sec = vh::num(a[1]); n.tv_usec = vh::num(a[2]);
+  t.tv_sec = vh::num(a[3]); t.tv_usec = vh::num(a[4]);
+  DmxBuffer b;
+  ola::DmxSource src(b, TimeStamp(t), 0);
+  return string("bset=") + (src.IsSet() ? "1" : "0") + ";bact=" + (src.IsActive(TimeStamp(n)) ? "1" : "0");
+}
+
 static string handle(const string &payload) {
+  if (payload.compare(0, 3, "tv ") == 0) return handle_tv(vh::split(payload));
   FixedClock clock;
   TimeStamp wake;
   FixedSS ss(&wake);
@@ -153,6 +164,12 @@ static string handle(const string &payload) {
   for (unsigned int i = 0; i < NOBJ; i++) new (&clients[i]) HClient(i);
 
   std::ostringstream out;
+  // defaults of a fresh universe and a fresh input port
+  out << "init=" << (u->MergeMode() == ola::Universe::MERGE_LTP ? 1 : 0) << "/"
+      << static_cast<int>(u->ActivePriority()) << "/" << static_cast<int>(ports[0]->GetPriority()) << "/"
+      << (ports[0]->GetPriorityMode() == ola::PRIORITY_MODE_INHERIT ? 1 : 0) << "/"
+      << static_cast<int>(ports[0]->InheritedPriority()) << "/"
+      << (ports[0]->PriorityCapability() == ola::CAPABILITY_FULL ? 1 : 0) << ";";
   vector<string> toks = vh::split(payload);
   unsigned int k = 0;
   for (size_t t = 0; t < toks.size(); t++) {
@@ -198,6 +215,11 @@ static string handle(const string &payload) {
       outs[id]->ret = f[2] == "1";
     } else if (op == "sr") {
       clients[id].ret = f[2] == "1";
+    } else if (op == "co") {
+      DmxBuffer b;
+      set_buf(&b, vh::unhex(f[2]));
+      ola::DmxSource src(b, ts_of(vh::num(f[4])), static_cast<uint8_t>(vh::num(f[3])));
+      clients[id].DMXReceived(UNI + 1 + (id % 3), src);
     } else if (op == "sd") {
       DmxBuffer b;
       set_buf(&b, vh::unhex(f[1]));
